@@ -67,6 +67,7 @@ package clock
 //@   ensures one-less-suspension: old(sane(c)) ==> c.suspensionCount == old(c.suspensionCount) - 1
 //@   ensures U-continuous: old(sane(c)) && old(clocknow(c.base) >= c.unsuspensionStart) && clocknow(c.base) < 1000000000000000000 ==> keepsU(c, clocknow(c.base))
 //@   ensures total-untouched: c.totalUnsuspended == old(c.totalUnsuspended)
+//@   at call Now#1 assert the-time-of-resumption-is-read-under-the-lock: held(c.lock) == 1
 
 // The wall-clock bound: the base context and the base timer are created with
 // the requested duration plus the maximum suspension.
